@@ -468,6 +468,20 @@ def rule_K_HASH(ctx, repo):
             k += 1
             v = o.val
             ok = not has_sub(v) and (contains_term(v, lambda t: t == obj) or contains_term(v, lambda t: t[0] == 'call' and libname(t[1]) == 'eval'))
+            if ok and contains_term(v, lambda t: t == obj):
+                # every step between the object and the returned encoding keeps all information (str / repr / encode / dumps ...): a normalisation, case
+                # fold, strip or substitution on the way maps distinct arguments to one key
+                sp = spine(v, lambda t: t == obj)
+                def enc_step(x):
+                    if x[0] == 'call':
+                        f_ = x[1]
+                        nm_ = f_[2] if f_[0] == 'attr' else (libname(f_) if f_[0] == 'lib' else None)
+                        if nm_ in ('repr', 'dumps', 'str', 'ascii'):
+                            return True
+                    return lossless_step(x)
+                lossy = [x for x in (sp or []) if not enc_step(x)]
+                if lossy:
+                    ok = False
             ctx.ob('K-HASH', 'crypto.%s' % name, ok)
             if not ok:
                 ctx.fail('K-HASH', fi.qual, '%s returns %s' % (name, render(v)[:80]),
@@ -482,7 +496,8 @@ def process_tainted(t):
         if x[0] == 'call' and x[1][0] in ('lib', 'global'):
             ln = x[1][1].split('.')[-1]
             full = x[1][1]
-            if ln in ('hash', '__hash', 'id', 'getpid', 'urandom', 'uuid4', 'uuid1', 'getrandbits', 'mktemp', 'monotonic', 'perf_counter', 'time_ns', 'getrandom'):
+            if ln in ('hash', '__hash', 'id', 'getpid', 'urandom', 'uuid4', 'uuid1', 'getrandbits', 'mktemp', 'monotonic', 'perf_counter', 'time_ns', 'getrandom',
+                      'abspath', 'realpath', 'getcwd', 'expanduser', 'gethostname', 'get_ident', 'resolve', 'absolute'):   # ... the working directory / user / host of the process
                 # klepto.crypto.hash with a named algorithm is a digest; builtin hash is not
                 if full.endswith('crypto.hash'):
                     return False
@@ -521,7 +536,7 @@ def rule_K_PROC(ctx, repo):
                          '%s:%d' % (mc.rel, fi.node.lineno), render_path(o))
     # keymaps: encode/encrypt of every class add nothing process dependent
     for cname, ci in classes.items():
-        for meth in ('encode', 'encrypt'):
+        for meth in ('encode', 'encrypt', '__call__'):
             fi = ci.methods.get(meth)
             if fi is None:
                 continue
@@ -814,3 +829,40 @@ def derives_only_from(kexpr, env, name):
     e = own.expand(kexpr, env)
     names = set(n.id for n in ast.walk(e) if isinstance(n, ast.Name))
     return names == set([name])
+
+
+def rule_K_SENTINEL_SET(ctx, repo):
+    """K-INFO (the sentinel is the object the caller configured).  `keymap(sentinel=x)` / `k.sentinel = x` makes x the separator of a flat key, for every
+    x except the one object that means "no separator" (NOSENTINEL).  The setter stores the value it is given: it does not translate values (None, False,
+    0 ... are legitimate separators that callers have used; turning them into "no separator" removes the only thing that keeps `f(1, 'a', 0)` and
+    `f(1, a=0)` apart for a function taking *args and **kwds)."""
+    m, classes = keymap_classes(repo)
+    ci = classes.get('keymap')
+    if ci is None or 'sentinel' not in ci.properties or ci.properties['sentinel'][1] is None:
+        raise AnalysisError('anchor vanished: keymap.sentinel property setter')
+    fi = ci.properties['sentinel'][1]
+    fn = fi.node
+    if len(fn.args.args) < 2:
+        raise AnalysisError('anchor changed: keymap sentinel setter takes no value')
+    p = fn.args.args[1].arg
+    rebinds = [x for x in ast.walk(fn) if isinstance(x, ast.Name) and x.id == p and isinstance(x.ctx, ast.Store)]
+    odd_tests = []
+    for x in ast.walk(fn):
+        if isinstance(x, ast.Compare) and any(isinstance(y, ast.Name) and y.id == p for y in ast.walk(x)):
+            others = [c for c in [x.left] + list(x.comparators) if not (isinstance(c, ast.Name) and c.id == p)]
+            if not all(isinstance(c, ast.Name) and c.id == 'NOSENTINEL' for c in others):
+                odd_tests.append(x)
+        elif isinstance(x, (ast.If, ast.IfExp, ast.While)) and isinstance(x.test, ast.Name) and x.test.id == p:
+            odd_tests.append(x.test)
+        elif isinstance(x, ast.UnaryOp) and isinstance(x.op, ast.Not) and isinstance(x.operand, ast.Name) and x.operand.id == p:
+            odd_tests.append(x)
+    stores = [x for x in ast.walk(fn) if isinstance(x, ast.Assign) and any(isinstance(t, ast.Attribute) and t.attr == '_mark' for t in x.targets)]
+    keeps = any(any(isinstance(y, ast.Name) and y.id == p for y in ast.walk(x.value)) for x in stores)
+    ok = not rebinds and not odd_tests and keeps
+    ctx.ob('K-INFO', 'keymap.sentinel setter stores the given object (only NOSENTINEL means none)', ok)
+    if not ok:
+        what = 'rebinds its argument' if rebinds else ('tests it against %s' % unparse(odd_tests[0])[:40] if odd_tests else 'does not store it')
+        ctx.fail('K-INFO', fi.qual, 'sentinel setter %s' % what,
+                 'the setter of keymap.sentinel %s: a marker the caller configured (None, False, 0 are in use as markers) is replaced or dropped, so flat keys lose the '
+                 'separator between positional and keyword arguments and two different calls of a function taking *args and **kwds share a key' % what,
+                 '%s:%d' % (m.rel, (rebinds or odd_tests or [fn])[0].lineno))
